@@ -399,11 +399,9 @@ class C06(PropCheck):
 
     def generate(self):
         n = 60 if self.tier == 'quick' else 700
-        # fixed regression histories first (defects found while building this check)
+        # (the two defect histories found while building this check live in corpus/C06 and run first)
         A, B, X = [1, 2], [3, 4], [5, 6]
         base = dict(dtype='<f8', rowshape=[3], bs=2)
-        yield dict(base, ops=[['set', 0, 'ok', A], ['set', 1, 'ok', B], ['flush'], ['del', 1]])
-        yield dict(base, ops=[['set', 0, 'ok', A], ['flush'], ['set', 1, 'ok', B], ['set', 0, 'ok', X]])
         yield dict(base, ops=[['set', 0, 'ok', A], ['set', 1, 'ok', B], ['reopen'], ['clear'], ['set', 0, 'ok', X], ['pickle'], ['set', 0, 'ok', B]])
         for i in range(n):
             malformed = (i % 5 == 4)
